@@ -171,6 +171,11 @@ class Inst:
                     arr, idx = t.children()[0], t.children()[1]
                     for r in array_roots(arr):
                         reads.setdefault(r.get_id(), {})[idx.get_id()] = idx
+                    if z3.is_select(arr):
+                        # two-level read D[g1][g2] of a list of arrays: remember the column index per outer array
+                        outer, g1 = arr.children()[0], arr.children()[1]
+                        for r in array_roots(outer):
+                            reads.setdefault(('nested', r.get_id()), {})[idx.get_id()] = idx
                 else:
                     apps.setdefault(t.decl().name(), {})[tuple(a.get_id() for a in t.children())] = t.children()
         # Store(A, i, v): index i is also an interesting ground term for A
@@ -211,6 +216,24 @@ class Inst:
         # triggers: selects with index linear in exactly one bound var
         for t in subterms(body, z3.is_select):
             arr, idx = t.children()[0], t.children()[1]
+            if has_var(arr, cache) and z3.is_select(arr) and not has_var(arr.children()[0], cache) and has_var(idx, cache):
+                # D[p_expr][i_expr] with bound row: candidates for the column variable from the ground two-level reads of D
+                lin = linear_in_var(idx, cache)
+                if lin is not None:
+                    k, sg, g = lin
+                    pool = {}
+                    for r in array_roots(arr.children()[0]):
+                        pool.update(class_reads.get(('nested', find(r.get_id())), {}))
+                        pool.update(reads.get(('nested', r.get_id()), {}))
+                    for gid, gt in pool.items():
+                        val = gt if g is None else gt - g
+                        if sg == -1:
+                            val = -val
+                        elif sg not in (1, -1):
+                            val = val / sg
+                        val = z3.simplify(val)
+                        cands[k][val.get_id()] = val
+                continue
             if has_var(arr, cache):
                 continue
             if not has_var(idx, cache):
@@ -325,7 +348,10 @@ class Inst:
             find = self.alias_classes(allf)
             class_reads = {}
             for rid, d in reads.items():
-                class_reads.setdefault(find(rid), {}).update(d)
+                if isinstance(rid, tuple):
+                    class_reads.setdefault(('nested', find(rid[1])), {}).update(d)
+                else:
+                    class_reads.setdefault(find(rid), {}).update(d)
             new = 0
             for q in self.quants:
                 nv = q.num_vars()
